@@ -31,6 +31,9 @@ struct Setup {
 fn setup(k: usize) -> Setup {
     if k == 3 {
         Setup { syms: vec![2, 4, 6], qvars: vec![0, 2, 4, 5, 6, 9] }
+    } else if k == 33 {
+        // ids congruent modulo 32 and 64 (k = 33 is only a tag for this 3-variable setup)
+        Setup { syms: vec![2, 34, 98], qvars: vec![0, 2, 34, 66, 98, 130] }
     } else {
         Setup { syms: vec![2, 4, 6, 8], qvars: vec![0, 2, 4, 5, 6, 8, 9] }
     }
@@ -40,8 +43,9 @@ fn case(k: usize, tt: u64, vs: &[usize], foreign: bool) -> Value {
     json!({"part": "api", "k": k, "f": tt, "vars": vs, "foreign": foreign})
 }
 
-fn check_one(ctx: &mut Ctx, sp: &Space<usize>, k: usize, tt: u64, vs: &[usize], foreign: bool) {
-    ctx.begin_case(|| case(k, tt, vs, foreign));
+fn check_one(ctx: &mut Ctx, sp: &Space<usize>, sid: usize, tt: u64, vs: &[usize], foreign: bool) {
+    let k = sp.k;
+    ctx.begin_case(|| case(sid, tt, vs, foreign));
     ctx.count("evaluations", 1);
     let key = || format!("{TAG} api syms={:?}{}: f={tt:#x} V={:?}", sp.syms, if foreign { " (operand not interned)" } else { "" }, vs);
     let f = sp.get(tt);
@@ -68,7 +72,7 @@ fn check_one(ctx: &mut Ctx, sp: &Space<usize>, k: usize, tt: u64, vs: &[usize], 
     });
     let (e, a, es, as_, dual, single) = match r {
         Err(p) => {
-            ctx.violation(key(), format!("quantification panicked: {p}"), case(k, tt, vs, foreign));
+            ctx.violation(key(), format!("quantification panicked: {p}"), case(sid, tt, vs, foreign));
             return;
         }
         Ok(x) => x,
@@ -105,21 +109,21 @@ fn check_one(ctx: &mut Ctx, sp: &Space<usize>, k: usize, tt: u64, vs: &[usize], 
         c.push("V is empty or disjoint from the variables f depends on, but the result is not f".into());
     }
     if !c.is_empty() {
-        ctx.violation(key(), c.join("; "), case(k, tt, vs, foreign));
+        ctx.violation(key(), c.join("; "), case(sid, tt, vs, foreign));
     }
     ctx.count("distinct_by_construction", 1);
     ctx.sample(|| json!({"f": robdd::show(&f), "V": vs, "exists": robdd::show(&e), "all": robdd::show(&a)}));
 }
 
-fn api_sweep(ctx: &mut Ctx, k: usize, maxlen: usize, foreign: bool) {
-    let st = setup(k);
+fn api_sweep(ctx: &mut Ctx, sid: usize, maxlen: usize, foreign: bool) {
+    let st = setup(sid);
     let sp = if foreign {
         Space::<usize>::by_foreign(&st.syms)
     } else {
         match Space::<usize>::by_interning(&st.syms) {
             Ok(s) => s,
             Err(e) => {
-                ctx.violation(format!("{TAG} building operands"), e, case(k, 0, &[], false));
+                ctx.violation(format!("{TAG} building operands"), e, case(sid, 0, &[], false));
                 return;
             }
         }
@@ -130,7 +134,7 @@ fn api_sweep(ctx: &mut Ctx, k: usize, maxlen: usize, foreign: bool) {
         for vs in &lists {
             idx += 1;
             if ctx.mine(idx) {
-                check_one(ctx, &sp, k, tt, vs, foreign);
+                check_one(ctx, &sp, sid, tt, vs, foreign);
             }
         }
     }
@@ -277,6 +281,7 @@ fn run(ctx: &mut Ctx) {
     long_lists(ctx);
     api_sweep(ctx, 3, 3, false);
     api_sweep(ctx, 3, 3, true);
+    api_sweep(ctx, 33, 3, false);
     // quick: F_4 with lists <= 2; thorough: lists <= 3
     api_sweep(ctx, 4, if ctx.thorough() { 3 } else { 2 }, false);
     text_sweep(ctx);
